@@ -63,9 +63,14 @@ ASSUMPTIONS = [
     "assigned, after `;`, inside a call or parentheses, with line breaks in their own brackets, "
     "after a backslash, in the enclosing brackets, before and after them); the return expression "
     "is 3*x + 5*y + G + one term per body line, G a reference of the cells' space",
-    "excluded as unsupported, exactly: more than one lambda expression in the statement / on the "
-    "line (formula.py:282-289 has_lambda 'only one lambda expression', :348-349 ValueError 'more "
-    "than 1 lambda expressions found'); async def and other non-def statements (is_funcdef "
+    "lambda OBJECTS taken from a statement with several lambdas (dict / call arguments, one per "
+    "line; the cells is made from the first, second or third) and lambdas containing another "
+    "lambda are part of the grammar; when more than one Lambda node starts on the line of the "
+    "object (two on one line, a nested lambda on the line of its parent) the code raises "
+    "ValueError 'more than 1 lambda expressions found' (formula.py:348-349): the model predicts "
+    "exactly that rejection and the judge accepts 'rejected with ValueError, or captured right'; "
+    "lambda TEXTS with several sibling lambdas are excluded (formula.py:282-289 has_lambda 'only "
+    "one lambda expression'; the first of ast.walk is taken); also excluded: async def and other non-def statements (is_funcdef "
     "formula.py:139-152 -> ValueError 'invalid function or lambda definition'); a def that calls "
     "itself by its def name or whose defaults / annotations need global names (the def is "
     "executed in an empty namespace, formula.py:417-419)",
@@ -161,7 +166,7 @@ def run_case(case):
                     cells = s.cells[cname]
                 else:
                     mod, path = _import_text(rendered["module"])
-                    obj = mod.f if lay["form"] == "funcobj" else mod.fn
+                    obj = mod.f if lay["form"] == "funcobj" else fr.lambda_object(mod, lay)
                     if via == "dec":
                         cells = mx.defcells(obj)
                     elif via == "set":
@@ -444,6 +449,8 @@ def negative_controls(traces, verdicts, rng):
     picked = []
     for form in ("deftext", "funcobj", "lamtext", "lamobj"):
         picked += [t for t in good if t["hdr"]["lay"]["form"] == form][:3]
+    picked += [t for t in good if t["hdr"]["lay"]["pick"] >= 2][:2]
+    picked += [t for t in good if t["hdr"]["lay"]["lbody"] == "nest"][:2]
     made, labels = [], collections.Counter()
     for tr in picked:
         for c in corruptions(tr):
@@ -648,6 +655,16 @@ def run(pid, tier, seed):
         if lay["form"].startswith("lam"):
             feats["embed:" + lay["embed"]] += 1
             feats["ml:" + lay["ml"]] += 1
+            feats["lbody:" + lay["lbody"]] += 1
+            cap = tr["ev"][0]["obs"]
+            if lay["pick"]:
+                feats["pick:%d" % lay["pick"]] += 1
+            if lay["pick"] >= 2 and cap["ok"]:
+                feats["captured:second-or-later-lambda-of-statement"] += 1
+            if lay["lbody"] == "nest" and cap["ok"]:
+                feats["captured:nested-lambda:" + lay["form"]] += 1
+            if not cap["ok"] and cap["err"] == "ValueError":
+                feats["rejected:more-than-1-lambda-on-the-line"] += 1
         else:
             feats["doc:%d" % lay["doc"]] += 1
             feats["hdr:" + lay["hdr"]] += 1
@@ -662,9 +679,14 @@ def run(pid, tier, seed):
             failures.append("vacuous run: no accepted %s operation was executed" % op)
     for need in ("line:deco1", "line:decomA", "line:decocmt", "line:one", "line:hdrB", "line:doc",
                  "line:lamB", "line:lpre", "line:last", "line:stmttc", "line:ndefA", "line:nclsA",
-                 "line:compr", "line:mlA", "line:nlam"):
+                 "line:compr", "line:mlA", "line:nlam", "line:lsib"):
         if not feats[need]:
             failures.append("vacuous run: no layout with a %s line" % need)
+    for need in ("embed:dict", "embed:pair", "embed:same", "lbody:nest",
+                 "captured:second-or-later-lambda-of-statement", "captured:nested-lambda:lamtext",
+                 "captured:nested-lambda:lamobj", "rejected:more-than-1-lambda-on-the-line"):
+        if not feats[need]:
+            failures.append("vacuous run: no case of %s" % need)
     for f in ("deftext", "funcobj", "lamtext", "lamobj"):
         if not forms[f]:
             failures.append("vacuous run: no layout of form %s" % f)
@@ -717,6 +739,10 @@ def run(pid, tier, seed):
                  "execution_s": round(t_prod, 1), "judgement_s": round(stats["tlc_wall_s"], 1)},
     }
     res["coverage"] = cov
+    if res["violations"]:
+        # a broken library also starves the vacuity counters and the negative controls (they
+        # are built from accepted recordings): report the violations, not those
+        failures = [f for f in failures if not f.startswith(("vacuous", "negative control"))]
     if failures:
         res["machinery_failure"] = "; ".join(failures[:3])
     res["summary"] = "model states=%d layouts=%d ops=%d nontrivial=%d kf=%s drift=%d neg=%d/%d" % (
